@@ -246,6 +246,7 @@ struct Parsed {
 Parsed run_parser(const string& text, bool exact, uint64_t flags = 0, bool also_without_mask = true, int ambient_errno = -1) {
   Parsed p;
   p.oc2 = "ok";
+  p.mask = "\x55 stale mask";  // the out-parameter is never a fresh string: the parser has to replace whatever it holds
   auto amb = [&] {
     if (ambient_errno >= 0) errno = ambient_errno;
   };
